@@ -14,6 +14,7 @@ FAILING = {"NOTFOUND", "ERR_BEFORE", "ERR_MID", "ERR_AFTER", "HTTP_404", "HTTP_5
            "EIO", "ENOSPC", "EMFILE", "SRC_MISSING", "PP_ERR_BEFORE", "PP_ERR_MID", "PP_ERR_AFTER", "RENAME_EIO",
            "RET_FALSE_BEFORE", "RET_FALSE_MID", "INTERRUPT_MID", "PP_INTERRUPT_MID", "ERR_STOPITER", "VALIDATE_RAISE", "DISK_FULL", "NOTFOUND_MID", "HTTP_DROP_MID"}
 NOTFOUND_KINDS = {"NOTFOUND", "HTTP_404", "SRC_MISSING", "NOTFOUND_MID"}
+FS_KINDS = {"EIO", "ENOSPC", "SHORT_WRITE", "EMFILE", "SRC_MISSING", "RENAME_EIO", "DISK_FULL"}
 
 
 def is_cache_name(name):
@@ -151,6 +152,36 @@ class Oracle:
         if kind == "PURGE":
             return self._check_purge(obs)
         return self._check_passive(obs)
+
+    def _reg_total(self, regset, files):
+        """bytes in the files of the keys the cache says it holds"""
+        tot = 0
+        for k in regset:
+            e = files.get(self.p_of(k))
+            if e is not None:
+                tot += e[0]
+        return tot
+
+    def _session_bound(self, obs, reg, new_reg, pre_files, post_files, zombies, fired, warned=False):
+        """C19 runs (where orphans of failed requests make the plain directory total meaningless): what the cache
+        has REGISTERED stays within the size in force across a request if it was within it before - registration
+        happens only in requests, and every path that registers also enlarges/evicts.  Not judged when another
+        actor is alive, and for a request that raised only when nothing but resource-level faults fired (a file
+        system fault or a warning turned into an error can legitimately abort a request between registration
+        and eviction)."""
+        if not self.c19 or zombies or obs.crashed or self.max_bytes is None or obs.max_bytes is None:
+            return None
+        if obs.exc is not None and (warned or any(f["kind"] in FS_KINDS for f in fired)):
+            return None
+        before = self._reg_total(reg, pre_files)
+        after = self._reg_total(new_reg, post_files)
+        if before <= self.max_bytes and after > obs.max_bytes and new_reg - reg:
+            self.probe("session_bound_judged")
+            return self._v("19g", "the files registered in the cache total %d bytes > the size in force %d after the "
+                           "request (%d <= %d before it; newly registered: %s): registered without eviction"
+                           % (after, obs.max_bytes, before, self.max_bytes, sorted(new_reg - reg)), obs)
+        self.probe("session_bound_judged")
+        return None
 
     # ------------------------------------------------------------------ open
     def _check_open(self, obs):
@@ -336,6 +367,9 @@ class Oracle:
             lost = (reg - new_reg) - rejected - self._evicted_keys(obs, post_files)
             if len(lost) > self._unattributed_evictions(obs, post_files):
                 return self._v("19c", "keys %s were cached before the failed request and are gone after it" % sorted(lost), obs)
+            v = self._session_bound(obs, reg, new_reg, pre_files, post_files, zombies, fired, warned)
+            if v:
+                return v
             self.registered = new_reg
             self.pending_retry |= set(misses)
             for k in rejected & set(maybe_failed):
@@ -485,6 +519,9 @@ class Oracle:
             for k in [k for i, k in enumerate(req) if served[i] is not None]:
                 if k not in new_reg:
                     return self._v("19c", "key %d was returned but is not in the cache afterwards" % k, obs)
+            v = self._session_bound(obs, reg, new_reg, pre_files, post_files, zombies, fired)
+            if v:
+                return v
 
         # --- bystanders ---------------------------------------------------------------
         v = self._bystanders(obs, reg, set(req), pre_files, post_files, current_paths)
